@@ -16,7 +16,8 @@ FAMILY = {"C01": "rules", "C03": "rules", "C11": "rules", "C12": "rules", "C05":
           "C07": "diagram", "C13": "builders", "C16": "builders", "C17": "labels", "C14": "labels", "C15": "rules",
           "C02": "scan", "C04": "scan", "C08": "scan", "C09": "scan", "C10": "scan"}
 MODULE = {"rules": "Trace_Rules", "layers": "Trace_Layers", "diagram": "Trace_Diagram", "builders": "Trace_Builders",
-          "labels": "Trace_Labels", "scan": "Trace_Scan"}
+          "labels": "Trace_Labels", "scan": "Trace_Scan", "graph": "Trace_Graph"}
+ALSO = {"C04": ["graph"], "C09": ["graph"], "C15": ["graph"]}       # second trace family of a property
 
 
 def _episodes(family, rng):
@@ -52,6 +53,9 @@ def _episodes(family, rng):
             specs.append({"driver": "diagram", "world": None,
                           "items": [{"op": "parse", "lines": c06.random_diagram(rng, ["a", "b", "c", "d", "e"], 3, False)}
                                     for _ in range(5)]})
+        elif family == "graph":
+            from harness.checks import graph_common as gc
+            return runner.run_specs(gc.random_specs(rng, 12), 4)
         elif family == "builders":
             from harness.checks import builders_common as bc
             hs, _ = bc.emit_histories("arch", 3)
@@ -83,7 +87,15 @@ def _corruptions(family):
     if family == "scan":
         return [("module dropped", lambda e: e["k"] == "scan" and len(e["modules"]) > 2, lambda e: e["modules"].pop()),
                 ("import dropped", lambda e: e["k"] == "scan" and len(e["imports"]) > 0, lambda e: e["imports"].pop()),
-                ("module invented", lambda e: e["k"] == "scan", lambda e: e["modules"].append(["r", "zz_invented"]))]
+                ("module invented", lambda e: e["k"] == "scan", lambda e: e["modules"].append(["r", "zz_invented"])),
+                ("hierarchy edge dropped", lambda e: e["k"] == "scan" and len(e.get("hier", [])) > 0, lambda e: e["hier"].pop())]
+    if family == "graph":
+        return [("node dropped", lambda e: e["k"] == "build" and len(e["nodes"]) > 2, lambda e: e["nodes"].pop()),
+                ("hierarchy edge dropped", lambda e: e["k"] == "build" and len(e["hier"]) > 0, lambda e: e["hier"].pop()),
+                ("import invented", lambda e: e["k"] == "build" and len(e["nodes"]) > 2,
+                 lambda e: e["imports"].append([e["nodes"][-1], e["nodes"][0]])),
+                ("a later listing order gives another graph", lambda e: e["k"] == "build" and not e["first"] and len(e["hier"]) > 0,
+                 lambda e: e["hier"].pop())]
     if family == "diagram":
         return [("component dropped", lambda e: e["k"] == "parse" and len(e["components"]) > 0, lambda e: e["components"].pop()),
                 ("arrow dropped", lambda e: e["k"] == "parse" and len(e["deps"]) > 0, lambda e: e["deps"].pop())]
@@ -94,7 +106,15 @@ def _corruptions(family):
 
 
 def run(ctx):
-    family = FAMILY[ctx.prop]
+    reports = [_run_family(ctx, fam) for fam in [FAMILY[ctx.prop]] + ALSO.get(ctx.prop, [])]
+    rep = reports[0]
+    for extra in reports[1:]:
+        rep.setdefault("further_families", []).append(extra)
+        rep["ok"] = rep["ok"] and extra["ok"]
+    return rep
+
+
+def _run_family(ctx, family):
     module = MODULE[family]
     rng = random.Random(ctx.seed + 4242)
     episodes = [e for e in _episodes(family, rng) if e]
